@@ -1129,6 +1129,9 @@ func (e *envT) scenarios() []*scenario {
 	if e.thorough {
 		gi = append(gi, initThree)
 	}
+	if !e.thorough {
+		graphs.Depth = 2 // quick: merge / multi-ref push directly from the branching worlds; depth 3 in the thorough tier
+	}
 	e.mkInits(graphs, baseHTTP, gi)
 
 	if e.thorough {
